@@ -47,3 +47,35 @@ Example covering_site :
   let types := [("T", ["a"; "b"])] in
   covers types ("f", "x", "T", false, ["b"; "a"]) = true /\ covers types ("g", "y", "T", true, []) = true.
 Proof. split; reflexivity. Qed.
+
+(** Over whole histories: whatever the pool contained at the start and whatever object the pool's policy
+    hands out at each acquisition, the sequence of observations of a history that only uses covering sites
+    is the same. *)
+Lemma observe_ignores_stale types s :
+  covers types s = true -> forall stale1 stale2 fresh,
+  observe types s (acquire s stale1 fresh) = observe types s (acquire s stale2 fresh).
+Proof.
+  intros Hc stale1 stale2 fresh. unfold observe.
+  destruct (fields_of types (site_type s)) as [fs|] eqn:Hfs; [|reflexivity].
+  apply map_ext_in. intros f Hin. exact (acquire_ignores_stale types s Hc fs Hfs stale1 stale2 fresh f Hin).
+Qed.
+
+Theorem history_ignores_pool types sites :
+  forallb (covers types) sites = true ->
+  forall h, (forall a, In a h -> In (fst a) sites) ->
+  forall (pick1 pick2 : policy) (p1 p2 : pool), prun types pick1 p1 h = prun types pick2 p2 h.
+Proof.
+  intros H h. rewrite forallb_forall in H.
+  induction h as [|a h IH]; intros Hh pick1 pick2 p1 p2; cbn [prun]; [reflexivity|].
+  f_equal.
+  - unfold pstep; cbn [snd]. apply observe_ignores_stale, H, Hh. now left.
+  - apply IH. intros b Hb. apply Hh. now right.
+Qed.
+
+(** not vacuous: with a leaky site two pools give different observations *)
+Example leaky_history_differs :
+  let types := [("T", ["a"; "b"])] in
+  let s : site := ("f", "x", "T", false, ["a"]) in
+  let pick : policy := fun p => match p with [] => (fun _ => 0%Z, []) | o :: r => (o, r) end in
+  prun types pick [fun _ => 1%Z] [(s, fun _ => 0%Z)] <> prun types pick [fun _ => 2%Z] [(s, fun _ => 0%Z)].
+Proof. cbv. discriminate. Qed.
